@@ -785,7 +785,14 @@ pub fn diag(rng: &mut Rng, count: u64, emit: Emit) {
                     let nerr = text.lines().filter(|l| l.starts_with("error:")).count();
                     let mut spans: Vec<(usize, usize)> = Vec::new();
                     for d in hclrs::verif_hooks::error_summary(&e) { for sp in d.spans { spans.push(sp); } }
-                    (format!("err errors={}", std::cmp::min(nerr, 1)), regions_of(&text), spans)
+                    // the message itself must name the offending wire, in quotes, where the planted fault is about a wire
+                    let named = match kname { "undeclared-read" => Some(longname.clone()), "never-assigned" => Some(String::from("d")),
+                        "redeclared" => Some(String::from("a")), "undeclared-assigned" => Some(String::from("zz")), _ => None };
+                    let nm = match named {
+                        Some(n) => if text.lines().any(|l| l.starts_with("error:") && l.contains(&format!("'{}'", n))) { " named=1" } else { " named=0" },
+                        None => "",
+                    };
+                    (format!("err errors={}{}", std::cmp::min(nerr, 1), nm), regions_of(&text), spans)
                 }
             }
         }));
